@@ -12,7 +12,7 @@ if os.path.exists(hp):
     held = {l.split()[0] for l in open(hp) if l.strip() and not l.startswith('#')}
 print('| prop | claimed | theorems (partial) | known findings | repaired findings (fix commit) | source facts regenerated each run | report |')
 print('|------|---------|--------------------|----------------|-------------------------------|------------------------------------|--------|')
-ids = ['C%02d' % i for i in range(1, 21)] + ['X01', 'X02', 'X03', 'X04']
+ids = ['C%02d' % i for i in range(1, 21)] + ['X%02d' % i for i in range(1, 10)]
 for p in ids:
     props = os.path.join(V, 'lean', 'PyramidModel', 'Props', p + '.lean')
     if not os.path.exists(props):
